@@ -439,6 +439,9 @@ class PyGen:
             return self.t_primary() + [tk('[')] + self.slices() + [tk(']')]
         if k == 6 and depth < 2:
             self.feat('tuple_target')
+            if cs.bool(24):
+                self.feat('empty_tuple_target')
+                return [tk('('), tk(')')]     # `() = x` is a valid (empty) unpacking target
             items = [self.target(True, depth + 1) for _ in range(1 + cs.choice(3))]
             if sum(1 for it in items if it[0].s == '*') > 1:
                 items = [it for it in items if it[0].s != '*'] or [[self.name()]]
